@@ -15,7 +15,8 @@ env = dict(os.environ)
 env.pop("JAX2ONNX_VERIF", None)
 subprocess.run(
     ["/venv/bin/python", "-m", "pytest", "-ra", "-q", "-p", "no:cacheprovider", "--timeout=900",
-     "--continue-on-collection-errors", f"--junitxml={out}"],
+     "--continue-on-collection-errors", f"--junitxml={out}"]
+    + (["-n", os.environ["BASELINE_XDIST"]] if os.environ.get("BASELINE_XDIST") else []),
     cwd=repo, env=env, stdout=subprocess.DEVNULL, stderr=subprocess.DEVNULL)
 base = json.load(open("/root/.vp/BASELINE.json"))
 passed, failed = set(), set()
